@@ -18,6 +18,9 @@
 import IgrisModel.C06.Lemmas
 import IgrisModel.C06.LemGrammar2
 import IgrisModel.C06.LemN
+import IgrisModel.C06.LemR3b
+import IgrisModel.C06.Model2
+import IgrisModel.C06.LemSyntax
 namespace Igris.C06
 open Iso
 
@@ -638,6 +641,148 @@ theorem printf_ls_wide_witness :
     printf "%lc".toList [.int 65] = .done ['A'] 1 := by
   constructor <;> decide
 
+/-! ## round 3b: `%p` as the property states it; print_i's `int`s linked to the loop -/
+
+/-- igris' rendering satisfies the property's clause for `%p`: `0x` followed by hex
+digits that parse back to the pointer (`PtrText` fixes no digit count) -/
+theorem igris_ptr_text (p : BitVec 64) : PtrText p.toNat (igrisPtr p.toNat) := by
+  obtain ⟨ds, h1, h2, h3⟩ := printf_p_parses_back p
+  exact ⟨ds, by intro h; simp [h] at h2, h1, h3⟩
+
+/-- the `%p` FIELD for every `*` width (any `int`, negative = `-` flag) and with or
+without the `-` flag: blanks up to the width on the proper side of a text that is
+`0x` + hex digits whose value is the pointer; the value returned is the length of
+the field = max(width, length of that text) -/
+theorem printf_p_field (minus : Bool) (w : BitVec 32) (p : BitVec 64) :
+    ∃ txt, PtrText p.toNat txt ∧
+      printf (if minus then "%-*p".toList else "%*p".toList) [.int w, .ptr p]
+        = .done (pad (minus || decide (w.toInt < 0)) w.toInt.natAbs txt)
+            ((max w.toInt.natAbs txt.length : Nat) : Int) := by
+  refine ⟨igrisPtr p.toNat, igris_ptr_text p, ?_⟩
+  have h : isoFormat igrisPtr (if minus then "%-*p".toList else "%*p".toList) [.int w, .ptr p]
+      = some (pad (minus || decide (w.toInt < 0)) w.toInt.natAbs (igrisPtr p.toNat)) := by
+    cases minus <;>
+    simp [isoFormat, isoAux, parseDirective, parseWidth, parsePrec, parseLen, isoConv, resolveWidth,
+      resolvePrec, isoBody, isFlag, NUL]
+  rw [printf_matches_iso _ _ _ h, pad_length']
+
+/-- every admissible rendering of a pointer (any digit count) has the SAME canonical
+form, the model's rendering: comparing `%p` fields in canonical form (what the
+harness does since round 3b) identifies exactly the texts the property allows -/
+theorem canon_ptr_text (p : Nat) (txt : List Char) (h : PtrText p txt) :
+    canonPtrText txt = some (igrisPtr p) := by
+  obtain ⟨ds, h1, h2, h3⟩ := h
+  subst h2
+  simp [canonPtrText, h1, h3]
+
+/-- the model's own rendering is a fixed point: the driver prints canonical fields -/
+theorem canon_ptr_igris (p : BitVec 64) : canonPtrText (igrisPtr p.toNat) = some (igrisPtr p.toNat) :=
+  canon_ptr_text _ _ (igris_ptr_text p)
+
+/-- ROUND 3b — the link between `print_i_ints_in_range` and the loop: whenever `loopN`, standing at a `%` with a
+nonnegative count (the invariant `pc = number of characters so far`), does NOT answer `intovf` (none of its three
+guards fired), the call of print_i that this directive makes (`printICall`) is made with a width and a precision
+that are nonnegative `int`s; and when the pass succeeds, what print_i returned is what the pass emits, the count
+stays inside `int`, and every `int` print_i computed on the way (`printIInts`) is in range -/
+theorem loopN_print_i_ints (fuel : Nat) (cs : List Char) (args : List Arg) (out : List Char) (pc : Int)
+    (st : List NStore) (res : OutcomeN) (hres : res ≠ .intovf) (hpc0 : 0 ≤ pc)
+    (h : loopN (fuel + 1) ('%' :: cs) args out pc st = res)
+    {u : BitVec 64} {sg : Bool} {w m : Int} {ops : Ops} {base : Nat}
+    (hc : printICall ('%' :: cs) args = some (u, sg, w, m, ops, base)) :
+    0 ≤ w ∧ w ≤ INT_MAX ∧ 0 ≤ m ∧ m ≤ INT_MAX ∧
+    ∀ emit dpc rest args', directive ('%' :: cs) args = .ok emit dpc rest args' →
+      printI u sg w m ops base = some (emit, dpc) ∧ pc + dpc ≤ INT_MAX ∧
+      ∀ x ∈ printIInts u sg w m ops base, -INT_MAX - 1 ≤ x ∧ x ≤ INT_MAX := by
+  obtain ⟨w0, p0, s0, a0, o0, hpo, hnn⟩ := printICall_not_n hc
+  have hg : intGuard ('%' :: cs) args = false := by
+    cases hgv : intGuard ('%' :: cs) args with
+    | false => rfl
+    | true =>
+      exfalso
+      apply hres
+      rw [← h]
+      simp [loopN, NUL, directiveN, hgv]
+  obtain ⟨p, s, a, o, hpo2, hm⟩ := printICall_params hc
+  obtain ⟨hw0, hw1, hp0, hp1⟩ := parseOpts_int_range hg hpo2
+  have hm0 : 0 ≤ m ∧ m ≤ INT_MAX := by
+    rcases hm with rfl | rfl
+    · exact ⟨hp0, hp1⟩
+    · unfold INT_MAX; omega
+  refine ⟨hw0, hw1, hm0.1, hm0.2, ?_⟩
+  intro emit dpc rest args' hdir
+  obtain ⟨h1, _⟩ := directive_printICall hc hdir
+  have hN : directiveN ('%' :: cs) args = .ok emit dpc rest args' none := by
+    unfold directiveN
+    simp [hg, hpo, hnn, hdir]
+  have hb : pc + dpc ≤ INT_MAX := by
+    by_cases hb : pc + dpc > INT_MAX
+    · exfalso
+      apply hres
+      rw [← h]
+      simp [loopN, NUL, hN, hb]
+    · omega
+  refine ⟨h1, hb, ?_⟩
+  exact printI_ints_range u sg w m ops base emit dpc h1 hw0 hw1 hm0.1 (by omega)
+
+/-- the closed form the driver runs (`vsnprintfFast`, linear in the output) IS `vsnprintf` — the fold of the
+callback `snprint_printchar` over the characters — for every destination, size, format and argument list -/
+theorem vsnprintf_fast_eq (mem : List Char) (n : Nat) (fmt : List Char) (args : List Arg) :
+    vsnprintfFast mem n fmt args = vsnprintf mem n fmt args := by
+  unfold vsnprintfFast
+  split
+  · rename_i hn
+    cases h : printf fmt args with
+    | done out pc =>
+      rw [vsnprintf_spec mem n fmt args out pc h hn, printf_count _ _ _ _ h]
+    | fault => simp [vsnprintf, h]
+    | badarg => simp [vsnprintf, h]
+    | unsupported => simp [vsnprintf, h]
+    | diverged => simp [vsnprintf, h]
+  · rfl
+
+/-- the same for the variadic entry -/
+theorem snprintf_fast_eq (mem : List Char) (n : Nat) (fmt : List Char) (args : List Arg) :
+    snprintfFast mem n fmt args = snprintf mem n fmt args :=
+  vsnprintf_fast_eq mem n fmt args
+
+/-- print_s's `int`s (open item "`(int)strlen` of a %s argument of 2^31 or more bytes"): whenever the count
+print_s returns fits an `int` — and `loopN` answers `intovf` when it does not — the length it measured
+(`(int)strnlen(...)` / `(int)strlen(...)`, first element of `printSInts`) fits an `int`, so the cast preserved the
+value, and so do `space_count` and `pc` after every `pc +=`.  A string of 2^31 or more bytes that is printed
+in full therefore always ends in `intovf`: the model never claims a result for it -/
+theorem print_s_ints_in_range (mem : List Char) (width maxLen : Int) (ops : Ops) (out : List Char) (pc : Int)
+    (h : printS mem width maxLen ops = some (out, pc)) (hw0 : 0 ≤ width) (hpc : pc ≤ INT_MAX) :
+    printSInts mem width maxLen ops ≠ [] ∧
+    ∀ x ∈ printSInts mem width maxLen ops, 0 ≤ x ∧ x ≤ INT_MAX := by
+  unfold printS at h
+  unfold printSInts
+  cases hm : (if ops.chr then (if 1 ≤ mem.length then some 1 else none)
+         else if ops.prec then strnlen mem maxLen.toNat else strlen mem) with
+  | none => simp [hm] at h
+  | some n =>
+    simp only [hm] at h ⊢
+    refine ⟨by simp, ?_⟩
+    unfold INT_MAX at hpc ⊢
+    cases hl : ops.left <;> simp only [hl] at h ⊢ <;> simp at h ⊢ <;> obtain ⟨_, h2⟩ := h <;>
+      (split at h2 <;> (try split) <;> omega)
+
+/-- a PURELY SYNTACTIC sufficient condition for `guardFree` (open item of round 3): when every run of decimal
+digits in the format has at most 9 digits (`digitRunsOk`, a property of the text alone) and no `int` argument is
+INT_MIN (`noIntMinArg`), no directive met on the way — whatever the parser makes of the text, also of malformed
+directives — computes outside `int` in `atoi` or in `width = -width` -/
+theorem guardFree_of_syntax (fmt : List Char) (args : List Arg)
+    (h1 : digitRunsOk fmt = true) (h2 : noIntMinArg args = true) :
+    guardFree (fmt.length + 1) fmt args = true :=
+  guardFree_of_syntax_aux _ fmt args h1 h2
+
+/-- `printfN_below_bound` with hypotheses one can read off the call: digit runs of at most 9 digits, no INT_MIN
+among the arguments, and an output of at most INT_MAX characters — there the unbounded model IS the C `int` code -/
+theorem printfN_below_bound_syntactic (fmt : List Char) (args : List Arg) (out : List Char) (pc : Int)
+    (h : printf fmt args = .done out pc) (hb : (out.length : Int) ≤ INT_MAX)
+    (h1 : digitRunsOk fmt = true) (h2 : noIntMinArg args = true) :
+    printfN fmt args = .done out pc [] :=
+  printfN_below_bound fmt args out pc h hb (guardFree_of_syntax fmt args h1 h2)
+
 /-! ## non-vacuity: the hypotheses above are satisfiable on non-trivial inputs -/
 
 -- a format with literal text, flags, `*` width, precision, length modifier, string with precision
@@ -704,5 +849,35 @@ example : guardFree 20 "%4294967301d".toList [.int 1] = false := by decide
 example : printfN "x=%d%n|".toList [.int 42, .ptr 8] = .done "x=42|".toList 5 [⟨8, 4, 4, 4⟩] := by decide
 example : printfN "x=%5d|".toList [.int 42] = .done "x=   42|".toList 8 [] := by decide
 example : printf "x=%5d|".toList [.int 42] = .done "x=   42|".toList 8 := by decide
+
+
+-- round 3b: printf_p_field (a negative `*` width), canon_ptr_text on the rendering with significant digits only
+example : printf "%*p".toList [.int (BitVec.ofInt 32 (-20)), .ptr 0x7ffc1234]
+    = .done "0x000000007ffc1234  ".toList 20 := by decide
+example : PtrText 0x7ffc1234 "0x7ffc1234".toList := ⟨"7ffc1234".toList, by decide, rfl, by decide⟩
+example : PtrText 0 "0x0".toList := ⟨['0'], by decide, rfl, by decide⟩
+example : canonPtrText "0x7ffc1234".toList = some "0x000000007ffc1234".toList := by decide
+
+-- loopN_print_i_ints: the print_i call of `%+08.3d` of 42; a directive that calls print_s has none
+example : printICall "%+08.3d".toList [.int 42]
+    = some (42, true, 8, 3, { sign := true, zero := true, prec := true }, 10) := by decide
+example : printICall "%5s".toList [.str ['a', NUL]] = none := by decide
+example : loopN 9 "%+08.3d".toList [.int 42] [] 0 [] = .done "    +042".toList 8 [] := by decide
+
+-- print_s_ints_in_range: `%-5.2s` of "abc"
+example : printS ['a', 'b', 'c', NUL] 5 2 { left := true, prec := true } = some ("ab   ".toList, 5) := by decide
+example : printSInts ['a', 'b', 'c', NUL] 5 2 { left := true, prec := true } = [2, 3, 0, 2, 5] := by decide
+
+-- vsnprintf_fast_eq: a truncating call through the closed form
+example : snprintfFast ['x', 'x', 'x', 'y', 'z'] 3 "%s=%d".toList [.str ['a', 'b', NUL], .int 7]
+      = some (['a', 'b', NUL, 'y', 'z'], 4) := by decide
+
+
+-- guardFree_of_syntax: the condition holds on an ordinary call, fails on a 10-digit literal / an INT_MIN argument
+example : digitRunsOk "a=%-*.3lld|%+05d|%.2s|123456789".toList = true ∧
+    noIntMinArg [.int 8, .long (BitVec.ofInt 64 (-42)), .int 7, .str ['x', 'y', 'z']] = true := by
+  constructor <;> decide
+example : digitRunsOk "%4294967301d".toList = false ∧ noIntMinArg [.int (BitVec.intMin 32)] = false := by
+  constructor <;> decide
 
 end Igris.C06
